@@ -532,6 +532,9 @@ impl<'a> LazyValueRef<'a> {
             // Map types
             Marker::FixMap(len) => {
                 let len = len as usize;
+                if len > (cursor.length - cursor.position) / 2 {
+                    return Err(ErrorCode::ReadError);
+                }
                 Ok((
                     Self::Object(ObjectRef {
                         len,
@@ -543,6 +546,9 @@ impl<'a> LazyValueRef<'a> {
             }
             Marker::Map16 => {
                 let len = cursor.read_u16().map(|n| n as usize)?;
+                if len > (cursor.length - cursor.position) / 2 {
+                    return Err(ErrorCode::ReadError);
+                }
                 Ok((
                     Self::Object(ObjectRef {
                         len,
@@ -554,6 +560,9 @@ impl<'a> LazyValueRef<'a> {
             }
             Marker::Map32 => {
                 let len = cursor.read_u32().map(|n| n as usize)?;
+                if len > (cursor.length - cursor.position) / 2 {
+                    return Err(ErrorCode::ReadError);
+                }
                 Ok((
                     Self::Object(ObjectRef {
                         len,
@@ -567,6 +576,9 @@ impl<'a> LazyValueRef<'a> {
             // Array types
             Marker::FixArray(len) => {
                 let len = len as usize;
+                if len > (cursor.length - cursor.position) {
+                    return Err(ErrorCode::ReadError);
+                }
                 Ok((
                     Self::Array(ArrayRef {
                         len,
@@ -578,6 +590,9 @@ impl<'a> LazyValueRef<'a> {
             }
             Marker::Array16 => {
                 let len = cursor.read_u16().map(|n| n as usize)?;
+                if len > (cursor.length - cursor.position) {
+                    return Err(ErrorCode::ReadError);
+                }
                 Ok((
                     Self::Array(ArrayRef {
                         len,
@@ -589,6 +604,9 @@ impl<'a> LazyValueRef<'a> {
             }
             Marker::Array32 => {
                 let len = cursor.read_u32().map(|n| n as usize)?;
+                if len > (cursor.length - cursor.position) {
+                    return Err(ErrorCode::ReadError);
+                }
                 Ok((
                     Self::Array(ArrayRef {
                         len,
